@@ -120,7 +120,7 @@ func (data AddLiquidityDataV260) Run(tx *Transaction, context state.Interface, r
 	if isGasCommissionFromPoolSwap && swapper.GetID() == commissionPoolSwapper.GetID() {
 		commissionInBaseCoin, _ = commissionPoolSwapper.CalculateBuyForSellWithOrders(commission)
 		if tx.GasCoin == data.Coin0 && data.Coin1.IsBaseCoin() {
-			swapper = swapper.AddLastSwapStepWithOrders(commission, commissionInBaseCoin, true)
+			swapper = swapper.AddLastSwapStepWithOrders(commission, commissionInBaseCoin, false)
 		}
 		if tx.GasCoin == data.Coin1 && data.Coin0.IsBaseCoin() {
 			swapper = swapper.AddLastSwapStepWithOrders(big.NewInt(0).Neg(commissionInBaseCoin), big.NewInt(0).Neg(commission), true)
